@@ -233,6 +233,20 @@ def t_ite(c: Term, a: Term, b: Term) -> Term:
         return b
     if a == b:
         return a
+    if a == TRUE and b == FALSE:
+        return c
+    if a == FALSE and b == TRUE:
+        return t_not(c)
+    if a in (TRUE, FALSE) or b in (TRUE, FALSE):
+        # a two-way choice between truth values is a formula
+        if a == TRUE:
+            return t_or(c, b)
+        if a == FALSE:
+            return t_and(t_not(c), b)
+        if b == TRUE:
+            return t_or(t_not(c), a)
+        if b == FALSE:
+            return t_and(c, a)
     return ("ite", c, a, b)
 
 
@@ -1090,6 +1104,12 @@ class Evaluator:
         if op in ("is", "isnot", "==", "!=") and NONE in (a, b):
             other = b if a == NONE else a
             if _never_none(other) or self._returns_object(other):
+                return FALSE if op in ("is", "==") else TRUE
+            if other[0] == "ite":
+                # None compared with a two-way value: decided per alternative
+                return t_ite(other[1], self.compare(op, NONE, other[2], fr), self.compare(op, NONE, other[3], fr))
+            if other[0] == "sub" and self.elem_type(other[1]) is not None and number(other[2]) is None and other[2][0] != "slice":
+                # an element of a list annotated List[<package class>] is an object of that class
                 return FALSE if op in ("is", "==") else TRUE
         return t_cmp(op, a, b)
 
